@@ -1,9 +1,409 @@
-/- C11 — executable model (core Lean only).  Stub. -/
+/-
+C11 — model of the blockings of the predefined shapes (core Lean only).
+
+Layer 1, topology (exact, index level):
+* a *blocking* is a list of blocks, a block is the list of its 8 vertex ids (what `Mesh.assemble`
+  produces: `Block.vertices[i].index`);
+* `loftBlocks` mirrors `LoftedShape.__init__` / `Stack`: every face of the sketch's quad map (taken in
+  the order of `shape.operations`, i.e. of the flattened `Sketch.grid`) becomes a block whose bottom
+  corners are the quad's points on layer `l` and whose top corners the same points on layer `l+1`;
+  `canon` renumbers vertices in the order in which `Mesh._add_vertices` meets them;
+* `ringQuads` / `gridQuads` are the hand models of `Annulus(n)` and `Grid(n, m)` (no quad map in the source);
+* wires come from the generated `AXIS_PAIRS`; a wire is coded as a number, the wires of a block axis as a
+  bit mask; two block axes are neighbours when their masks meet (`Axis.add_neighbour`: they share a wire);
+  `closure` mirrors, at axis level, `BlockList.propagate_gradings` after the repair of C02 (an axis is
+  defined iff it is chopped or a neighbour axis is defined), as breadth-first passes over the undefined axes;
+  `writeResult` is what `Mesh.write` answers: ok or the list of blocks with an undefined axis;
+* `chopNodes` evaluates `LoftedShape.chop(axis)` through the generated `Sketch.chops` lists.
+
+Layer 2, geometry (validators on exact rationals): `cornerJac`, `rightHanded`.
+-/
 import CBV.Model.Common
 import CBV.Gen.Tables
 
 namespace CBV.C11
 
-def handle (_op : String) (_args : List String) : Option String := none
+abbrev Block := List Nat
+abbrev Blocking := List Block
+/-- a wire = unordered vertex pair {u, v}, coded as the number `min u v * M + max u v` with `M` larger than
+    every vertex id of the blocking (injective for `u, v < M`, `wireKey_inj` in Lemmas) -/
+abbrev Wire := Nat
+
+def wireKey (M u v : Nat) : Wire := if u ≤ v then u * M + v else v * M + u
+
+def maxOf (xs : List Nat) : Nat := xs.foldl max 0
+
+/-- a bound above every vertex id of a blocking -/
+def vertexBound (B : Blocking) : Nat := maxOf (B.map maxOf) + 1
+
+/-- a set of wires as a bit mask: wire `w` is bit `w` (set operations are single big-number operations,
+    which the kernel evaluates natively under `decide`) -/
+abbrev Mask := Nat
+
+def orAll (ms : List Mask) : Mask := ms.foldr (· ||| ·) 0
+
+/-- the (non-degenerate) wires of axis `a` of a block, through the generated `AXIS_PAIRS` -/
+def axisWires (M : Nat) (b : Block) (a : Nat) : List Wire :=
+  ((CBV.Gen.axisPairs.getD a []).filter (fun p => !Nat.beq (b.getD p.1 0) (b.getD p.2 0))).map
+    (fun p => wireKey M (b.getD p.1 0) (b.getD p.2 0))
+
+def maskOf (ws : List Wire) : Mask := orAll (ws.map (2 ^ ·))
+
+/-- node `3*b + a` = axis `a` of block `b`; the table of the wire sets of every node -/
+def wireTableM (M : Nat) (B : Blocking) : List Mask :=
+  B.flatMap (fun b => [maskOf (axisWires M b 0), maskOf (axisWires M b 1), maskOf (axisWires M b 2)])
+
+/-- (the `match` makes the kernel evaluate the bound once instead of once per wire) -/
+def wireTable (B : Blocking) : List Mask :=
+  match vertexBound B with
+  | 0 => wireTableM 0 B
+  | M + 1 => wireTableM (M + 1) B
+
+/-- a node of the propagation: the wires of a block axis and its number `3*b + a` -/
+abbrev Node := Mask × Nat
+
+/-- the nodes in order: `(wires, number)` -/
+def nodesOf (T : List Mask) : List Node := T.zipIdx
+
+def memN (n : Nat) : List Nat → Bool
+  | [] => false
+  | x :: xs => Nat.beq n x || memN n xs
+
+/-- does the node own one of the wires `fw` (`Axis.add_neighbour`: some pair of wires is coincident) -/
+def hit (fw : Mask) (x : Node) : Bool := !Nat.beq (fw &&& x.1) 0
+
+/-- breadth-first passes of the propagation until nothing changes; `none` = out of fuel (never happens
+    with fuel > #nodes).  `vis` = defined axes so far, `fw` = the wires of the axes defined in the last
+    pass, `rest` = the axes that are still undefined. -/
+def iter : Nat → List Nat → Mask → List Node → Option (List Nat)
+  | 0, _, _, _ => none
+  | fuel + 1, vis, fw, rest =>
+    match rest.filter (hit fw) with
+    | [] => some vis
+    | x :: xs => iter fuel ((x :: xs).map (·.2) ++ vis) (orAll ((x :: xs).map (·.1))) (rest.filter (fun y => !hit fw y))
+
+def closureT (T : List Mask) (chops : List Nat) : Option (List Nat) :=
+  let seeds := (nodesOf T).filter (fun x => memN x.2 chops)
+  iter (T.length + 1) (seeds.map (·.2)) (orAll (seeds.map (·.1))) ((nodesOf T).filter (fun x => !memN x.2 chops))
+
+/-- the defined axes after `grade_blocks` + `propagate_gradings`, `chops` = chopped nodes -/
+def closure (B : Blocking) (chops : List Nat) : Option (List Nat) := closureT (wireTable B) chops
+
+inductive WriteResult where
+  | ok
+  | undefined (blocks : List Nat)
+  | fuel
+  deriving DecidableEq, Repr
+
+/-- is node `n` in the node set coded as a bit mask -/
+def inMask (dm : Mask) (n : Nat) : Bool := dm.testBit n
+
+/-- blocks that own an axis outside the set `dm` of defined nodes -/
+def undefinedBlocksM (B : Blocking) (dm : Mask) : List Nat :=
+  (List.range B.length).filter (fun b => !(inMask dm (3 * b) && inMask dm (3 * b + 1) && inMask dm (3 * b + 2)))
+
+/-- blocks that own an axis outside `d` (the `match` makes the kernel evaluate the mask of `d` once) -/
+def undefinedBlocks (B : Blocking) (d : List Nat) : List Nat :=
+  match maskOf d with
+  | 0 => undefinedBlocksM B 0
+  | dm + 1 => undefinedBlocksM B (dm + 1)
+
+/-- `Mesh.write` as far as gradings are concerned: `UndefinedGradingsError` names the undefined blocks -/
+def writeResult (B : Blocking) (chops : List Nat) : WriteResult :=
+  match closure B chops with
+  | none => .fuel
+  | some d => match undefinedBlocks B d with
+    | [] => .ok
+    | bs => .undefined bs
+
+def writeOk (B : Blocking) (chops : List Nat) : Bool :=
+  match writeResult B chops with
+  | .ok => true
+  | _ => false
+
+/-- family label of a node: the smallest node of its connected component -/
+def familyOf (B : Blocking) (n : Nat) : Option Nat :=
+  (closure B [n]).map (fun d => d.foldl min n)
+
+/-- labels of all nodes, one closure per family: `labs` = (node, label) found so far -/
+def labelAll (T : List Mask) : Nat → List Nat → List (Nat × Nat) → Option (List (Nat × Nat))
+  | _, [], labs => some labs
+  | 0, _ :: _, _ => none
+  | fuel + 1, n :: rest, labs =>
+    if labs.any (fun p => p.1 == n) then labelAll T fuel rest labs
+    else match closureT T [n] with
+      | none => none
+      | some d => labelAll T fuel rest (labs ++ d.map (fun m => (m, n)))
+
+/-- the family label (smallest member) of every node, in node order -/
+def families (B : Blocking) : Option (List Nat) :=
+  let T := wireTable B
+  (labelAll T (T.length + 1) (List.range T.length) []).map (fun labs =>
+    (List.range T.length).map (fun n => ((labs.find? (fun p => p.1 == n)).map (·.2)).getD n))
+
+/-- number of chopped nodes per family, given the labels -/
+def chopsPerFamily (labs : List Nat) (chops : List Nat) : List (Nat × Nat) :=
+  (labs.eraseDups).map (fun l => (l, ((List.range labs.length).filter (fun n => chops.contains n && labs.getD n n == l)).length))
+
+/-- every family holds exactly one chopped axis -/
+def exactlyOnce (B : Blocking) (chops : List Nat) : Bool :=
+  match families B with
+  | none => false
+  | some labs => (chopsPerFamily labs chops).all (fun p => p.2 == 1)
+
+/-- no two different chopped axes lie in the same family: the closure of one never contains another -/
+def separatedT (T : List Mask) (chops : List Nat) : Bool :=
+  chops.all (fun s => match closureT T [s] with
+    | some d => chops.all (fun t => Nat.beq t s || !memN t d)
+    | none => false)
+
+def separated (B : Blocking) (chops : List Nat) : Bool := separatedT (wireTable B) chops
+
+/-- the chop calls do not interfere: no family receives chops from two different calls
+    (`calls` = the chopped nodes of every documented call) -/
+def callsSeparatedT (T : List Mask) (calls : List (List Nat)) : Bool :=
+  (List.range calls.length).all (fun i => match closureT T (calls.getD i []) with
+    | some d => (List.range calls.length).all (fun j => Nat.beq i j || (calls.getD j []).all (fun t => !memN t d))
+    | none => false)
+
+def callsSeparated (B : Blocking) (calls : List (List Nat)) : Bool := callsSeparatedT (wireTable B) calls
+
+/-! ### lofting a quad map -/
+
+/-- number of points of a quad map (`max index + 1`, as `MappedSketch.positions` does) -/
+def nPoints (quads : List (List Nat)) : Nat := maxOf (quads.map maxOf) + 1
+
+/-- the blocks of one tier: bottom = the quad on layer `l`, top = the same quad on layer `l+1` -/
+def loftBlocks (quads : List (List Nat)) (np l : Nat) : Blocking :=
+  quads.map (fun q => q.map (· + l * np) ++ q.map (· + (l + 1) * np))
+
+/-- `k` tiers on top of each other (a `LoftedShape` is `k = 1`, a `Stack` has `repeats = k`) -/
+def stackBlocks (quads : List (List Nat)) (k : Nat) : Blocking :=
+  (List.range k).flatMap (loftBlocks quads (nPoints quads))
+
+/-- vertex ids in order of first appearance -/
+def firstSeen : List Nat → List Nat → List Nat
+  | [], acc => acc.reverse
+  | v :: vs, acc => if memN v acc then firstSeen vs acc else firstSeen vs (v :: acc)
+
+/-- position of `v` in a list (its length when absent) -/
+def idxN (v : Nat) : List Nat → Nat
+  | [] => 0
+  | x :: xs => if Nat.beq v x then 0 else idxN v xs + 1
+
+/-- renumbering as `Mesh._add_vertices` does: a new index for every vertex not met before -/
+def canon (B : Blocking) : Blocking :=
+  match firstSeen B.flatten [] with
+  | order => B.map (fun b => b.map (fun v => idxN v order))
+
+/-- quads in the order of `shape.operations` = flattened `Sketch.grid` -/
+def opQuads (quads : List (List Nat)) (grid : List (List Nat)) : List (List Nat) :=
+  grid.flatten.map (fun i => quads.getD i [])
+
+abbrev SketchEntry := String × List (List Nat) × List (List Nat) × List (List Nat)
+
+def SketchEntry.name (e : SketchEntry) : String := e.1
+def SketchEntry.quads (e : SketchEntry) : List (List Nat) := opQuads e.2.1 e.2.2.1
+def SketchEntry.chops (e : SketchEntry) : List (List Nat) := e.2.2.2
+
+def findSketch (name : String) : Option SketchEntry := CBV.Gen.c11Sketches.find? (fun e => e.1 == name)
+
+/-- `LoftedShape.chop(axis)`: axis 2 chops operation 0, axes 0/1 the operations listed in `Sketch.chops` -/
+def chopNodesAxis (chops : List (List Nat)) (axis : Nat) : List Nat :=
+  if axis == 2 then [2] else (chops.getD axis []).map (fun i => 3 * i + axis)
+
+/-- the three documented calls `chop(0)`, `chop(1)`, `chop(2)` -/
+def chopNodes (chops : List (List Nat)) : List Nat :=
+  chopNodesAxis chops 0 ++ chopNodesAxis chops 1 ++ chopNodesAxis chops 2
+
+/-- a stack: `shapes[0].chop(0)`, `shapes[0].chop(1)` and `Stack.chop()` = axis 2 of `grid[0][0]` of every tier -/
+def stackChopNodes (chops : List (List Nat)) (nOps k : Nat) : List Nat :=
+  chopNodesAxis chops 0 ++ chopNodesAxis chops 1 ++ (List.range k).map (fun l => 3 * (l * nOps) + 2)
+
+/-- `Annulus(n)`: segment `i` = inner i, outer i, outer i+1, inner i+1 (points 2i, 2i+1) -/
+def ringQuads (n : Nat) : List (List Nat) :=
+  (List.range n).map (fun i => [2 * i, 2 * i + 1, 2 * ((i + 1) % n) + 1, 2 * ((i + 1) % n)])
+
+/-- `RoundHollowShape`: axial = operation 0 axis 2, radial = shell[0] axis 0, tangential = every operation axis 1 -/
+def ringChopNodes (n : Nat) : List Nat := [2, 0] ++ (List.range n).map (fun i => 3 * i + 1)
+
+/-- `Grid(n, m)` (`count_1 = n` columns, `count_2 = m` rows), points numbered row by row -/
+def gridQuads (n m : Nat) : List (List Nat) :=
+  (List.range m).flatMap (fun iy => (List.range n).map (fun ix =>
+    [iy * (n + 1) + ix, iy * (n + 1) + ix + 1, (iy + 1) * (n + 1) + ix + 1, (iy + 1) * (n + 1) + ix]))
+
+/-! ### conformity of a quad map -/
+
+/-- directed edges of a quad, in order -/
+def quadEdges (q : List Nat) : List (Nat × Nat) :=
+  [(q.getD 0 0, q.getD 1 0), (q.getD 1 0, q.getD 2 0), (q.getD 2 0, q.getD 3 0), (q.getD 3 0, q.getD 0 0)]
+
+def commonPoints (p q : List Nat) : List Nat := p.filter (fun x => q.contains x)
+
+/-- two different quads share nothing, one point, or one edge which they traverse in opposite directions -/
+def pairConformal (p q : List Nat) : Bool :=
+  match commonPoints p q with
+  | [] => true
+  | [_] => true
+  | [_, _] => (quadEdges p).any (fun e => (quadEdges q).contains (e.2, e.1))
+  | _ => false
+
+def allPairs : List α → List (α × α)
+  | [] => []
+  | x :: xs => xs.map (fun y => (x, y)) ++ allPairs xs
+
+/-- well-formed quads (4 different points), pairwise conformal and consistently oriented -/
+def quadsConformal (quads : List (List Nat)) : Bool :=
+  quads.all (fun q => q.length == 4 && q.Nodup) && (allPairs quads).all (fun pq => pairConformal pq.1 pq.2)
+
+/-- every point index below `nPoints` is used by some quad (the expected vertex count of a tier) -/
+def allPointsUsed (quads : List (List Nat)) : Bool :=
+  (List.range (nPoints quads)).all (fun i => quads.any (fun q => q.contains i))
+
+/-! ### geometry validators (exact rationals) -/
+
+def triple (a b c : V3) : Rat := V3.dot (V3.cross a b) c
+
+/-- for every corner its three neighbours ordered so that a positively oriented cell gives a positive
+    triple product (the blockMesh hexahedron numbering) -/
+def cornerNbrs : List (Nat × Nat × Nat) :=
+  [(1, 3, 4), (2, 0, 5), (3, 1, 6), (0, 2, 7), (7, 5, 0), (4, 6, 1), (5, 7, 2), (6, 4, 3)]
+
+def cornerJac (pts : List V3) (c : Nat) : Rat :=
+  let p := pts.getD c V3.zero
+  let n := cornerNbrs.getD c (0, 0, 0)
+  triple (pts.getD n.1 V3.zero - p) (pts.getD n.2.1 V3.zero - p) (pts.getD n.2.2 V3.zero - p)
+
+/-- corners whose Jacobian is not positive -/
+def badCorners (pts : List V3) : List Nat := (List.range 8).filter (fun c => !(0 < cornerJac pts c))
+
+def rightHanded (pts : List V3) : Bool := pts.length == 8 && (badCorners pts).isEmpty
+
+/-! ### vocabulary of the property statements (Props/C11) -/
+
+/-- blocking of the shape lofted from a sketch entry (`k` tiers) -/
+def loftOf (e : SketchEntry) (k : Nat) : Blocking := stackBlocks e.quads k
+
+/-- all a sketch class must satisfy: the three `chop(axis)` calls reach every axis, and no family is chopped twice -/
+def sketchChoppable (e : SketchEntry) : Bool :=
+  writeOk (loftOf e 1) (chopNodes e.chops) && separated (loftOf e 1) (chopNodes e.chops)
+
+def sketchNamed (name : String) (p : SketchEntry → Bool) : Bool :=
+  match findSketch name with
+  | some e => p e
+  | none => false
+
+/-- quad maps: four different points per quad, two quads share nothing, a point, or one edge which they
+    traverse in opposite directions (so one right-handed block makes all blocks right-handed), and every
+    point index is used (expected vertex count of a tier) -/
+def sketchConformal (e : SketchEntry) : Bool := quadsConformal e.quads && allPointsUsed e.quads
+
+def dispNodes (d : List (List (Nat × Nat))) : List Nat := d.flatten.map (fun p => 3 * p.1 + p.2)
+
+def findShape (name : String) : Option (String × List (List Nat) × List (List (Nat × Nat))) :=
+  CBV.Gen.c11Shapes.find? (fun s => s.1 == name)
+
+/-- lofting the quad map (in grid order) reproduces the blocking `Mesh.assemble` builds for the extruded
+    probe and for the stack of 2 tiers, and `Sketch.chops` evaluates to the operations the calls chop -/
+def sketchMatchesProbes (e : SketchEntry) : Bool :=
+  (match findShape ("Extruded" ++ e.1) with
+    | some s => decide (canon (loftOf e 1) = s.2.1) && decide (chopNodes e.chops = dispNodes s.2.2)
+    | none => false) &&
+  (match findShape ("Stack2" ++ e.1) with
+    | some s => decide (canon (loftOf e 2) = s.2.1) && decide (stackChopNodes e.chops e.quads.length 2 = dispNodes s.2.2)
+    | none => false)
+
+/-- every probe shape (round shapes, rings, hemisphere, joints, extruded sketches, stacks): the documented
+    chop calls reach every axis, and no wire family receives chops from two different calls -/
+def shapeChoppable (s : String × List (List Nat) × List (List (Nat × Nat))) : Bool :=
+  writeOk s.2.1 (dispNodes s.2.2) &&
+    callsSeparated s.2.1 (s.2.2.map (fun call => call.map (fun p => 3 * p.1 + p.2)))
+
+/-- the round probe shapes whose calls chop every family exactly once; the others (`Hemisphere`, the
+    joints) chop some family twice within one call, with the same arguments, on congruent blocks -/
+def onceShapes : List String :=
+  ["Cylinder", "SemiCylinder", "Frustum", "Elbow", "ExtrudedRing3", "ExtrudedRing4", "ExtrudedRing5",
+    "ExtrudedRing6", "ExtrudedRing8", "ExtrudedRing12", "RevolvedRing3", "RevolvedRing4", "RevolvedRing5",
+    "RevolvedRing6", "RevolvedRing8", "RevolvedRing12"]
+
+def shapeNamed (name : String) (p : String × List (List Nat) × List (List (Nat × Nat)) → Bool) : Bool :=
+  match findShape name with
+  | some s => p s
+  | none => false
+
+/-- the ring hand model `ringQuads` gives the blocking of the `ExtrudedRing` probes, and `ringChopNodes`
+    their chop dispatch (a test of the hand model against the source, for the sizes in the table) -/
+def ringMatchesProbe (n : Nat) : Bool :=
+  match findShape ("ExtrudedRing" ++ toString n) with
+  | some s => decide (canon (stackBlocks (ringQuads n) 1) = s.2.1) && decide (ringChopNodes n = dispNodes s.2.2)
+  | none => false
+
+/-- image of a vector under the linear map with rows `r1 r2 r3` -/
+def lin (r1 r2 r3 v : V3) : V3 := ⟨V3.dot r1 v, V3.dot r2 v, V3.dot r3 v⟩
+
+/-- affine placement `v ↦ M v + t` -/
+def place (r1 r2 r3 t v : V3) : V3 := lin r1 r2 r3 v + t
+
+/-- determinant of the matrix with rows `r1 r2 r3` -/
+def det3 (r1 r2 r3 : V3) : Rat := triple r1 r2 r3
+
+/-- rows of the (unnormalised) rotation matrix of a quaternion `(w, x, y, z)`, times a scale `s` -/
+def quatRows (w x y z s : Rat) : V3 × V3 × V3 :=
+  (⟨s * (w * w + x * x - y * y - z * z), s * (2 * (x * y - w * z)), s * (2 * (x * z + w * y))⟩,
+   ⟨s * (2 * (x * y + w * z)), s * (w * w - x * x + y * y - z * z), s * (2 * (y * z - w * x))⟩,
+   ⟨s * (2 * (x * z - w * y)), s * (2 * (y * z + w * x)), s * (w * w - x * x - y * y + z * z)⟩)
+
+
+/-! ### line protocol -/
+
+def chunk8 : List Nat → Option Blocking
+  | [] => some []
+  | a :: b :: c :: d :: e :: f :: g :: h :: rest => (chunk8 rest).map (fun bs => [a, b, c, d, e, f, g, h] :: bs)
+  | _ => none
+
+def showBlocking (B : Blocking) : String := showNatList B.flatten
+
+def showWrite : WriteResult → String
+  | .ok => "ok"
+  | .undefined bs => "undefined " ++ showNatList bs
+  | .fuel => "fuel"
+
+def sketchNodes (e : SketchEntry) (k : Nat) : List Nat :=
+  if k == 1 then chopNodes e.chops else stackChopNodes e.chops e.quads.length k
+
+def handle (op : String) (args : List String) : Option String :=
+  match op, args with
+  | "c11.write", [b, c] => do
+      let B ← (parseNatList? b).bind chunk8
+      let chops ← parseNatList? c
+      if chops.all (· < 3 * B.length) then some (showWrite (writeResult B chops)) else none
+  | "c11.fam", [b] => do
+      let B ← (parseNatList? b).bind chunk8
+      let labs ← families B
+      some (showNatList labs)
+  | "c11.loft", [name, k] => do
+      let e ← findSketch name
+      let k ← parseNat? k
+      if k == 0 then none else
+      some (showBlocking (canon (stackBlocks e.quads k)) ++ " " ++ showNatList (sketchNodes e k))
+  | "c11.ring", [n, k] => do
+      let n ← parseNat? n
+      let k ← parseNat? k
+      if n < 3 || k == 0 then none else
+      some (showBlocking (canon (stackBlocks (ringQuads n) k)) ++ " " ++ showNatList (ringChopNodes n))
+  | "c11.grid", [n, m, k] => do
+      let n ← parseNat? n
+      let m ← parseNat? m
+      let k ← parseNat? k
+      if n == 0 || m == 0 || k == 0 then none else
+      some (showBlocking (canon (stackBlocks (gridQuads n m) k)))
+  | "c11.shape", [name] => do
+      let e ← CBV.Gen.c11Shapes.find? (fun e => e.1 == name)
+      some (showBlocking e.2.1 ++ " " ++ showNatList ((e.2.2.flatten).map (fun p => 3 * p.1 + p.2)))
+  | "c11.rh", pts => do
+      let ps ← pts.mapM parseV3?
+      if ps.length != 8 then none else
+      some (if rightHanded ps then "ok" else "fail " ++ showNatList (badCorners ps))
+  | _, _ => none
 
 end CBV.C11
